@@ -88,6 +88,8 @@ class _FilAddrUtils:
         # Validate and remove prefix
         addr_no_prefix = AddrDecUtils.ValidateAndRemovePrefix(addr, CoinsConf.Filecoin.ParamByKey("addr_prefix"))
         # Check address type
+        if len(addr_no_prefix) == 0:
+            raise ValueError("Invalid address (missing address type)")
         addr_type_got = ord(addr_no_prefix[0]) - ord("0")
         if addr_type != addr_type_got:
             raise ValueError(f"Invalid address type (expected {addr_type}, got {addr_type_got})")
